@@ -139,10 +139,14 @@ class EngineScenario:
 
     def apis(self):
         spa = self.spa
-        f = self.s.facade
+        f = self.__dict__.get("_facade0") or self.s.facade
+        if f is not None:
+            # (the connection may be replaced while a scenario waits: the calls keep addressing the connection the
+            # scenario started with)
+            self.__dict__["_facade0"] = f
         out = [("wc", lambda: spa.async_get_watercare()), ("rem", lambda: spa.async_get_reminders()),
                ("press", lambda: spa.async_press(self.rng.choice([1, 2, 16])))]
-        if f.pumps:
+        if f is not None and f.pumps:
             p = f.pumps[0]
             out.append(("setmode", lambda: spa._on_async_set_value(300, 1, self.rng.randrange(4))))
         return out
